@@ -512,6 +512,22 @@ macro_rules! kind_search {
 macro_rules! kind_reversed {
     (di) => {
         /// runs `f(index, edge, which)` for every edge the iterator yields; `f` returns false to stop (cap); returns false if stopped
+        /// the same loop driven by the iterator's internal iteration (`for_each`, i.e. `fold`; also behind `count`, `sum`, `map`)
+        pub fn iter_fold(n: &N, which: &str, f: &mut dyn FnMut(usize, (usize, usize, u32), &str) -> bool) -> bool {
+            let mut i = 0;
+            if which == "in" {
+                n.iter_in().for_each(|Edge(u, v, e)| {
+                    let _ = f(i, (*u.key(), *v.key(), e), "in");
+                    i += 1;
+                });
+            } else {
+                n.iter_out().for_each(|Edge(u, v, e)| {
+                    let _ = f(i, (*u.key(), *v.key(), e), "out");
+                    i += 1;
+                });
+            }
+            true
+        }
         pub fn iter_loop(n: &N, which: &str, f: &mut dyn FnMut(usize, (usize, usize, u32), &str) -> bool) -> bool {
             let mut i = 0;
             // the iterator is driven by hand so that the rest of its `Iterator` surface (`size_hint`, which `collect`,
@@ -582,6 +598,14 @@ macro_rules! kind_reversed {
         }
     };
     (un) => {
+        pub fn iter_fold(n: &N, _which: &str, f: &mut dyn FnMut(usize, (usize, usize, u32), &str) -> bool) -> bool {
+            let mut i = 0;
+            n.iter().for_each(|Edge(u, v, e)| {
+                let _ = f(i, (*u.key(), *v.key(), e), "adj");
+                i += 1;
+            });
+            true
+        }
         pub fn iter_loop(n: &N, _which: &str, f: &mut dyn FnMut(usize, (usize, usize, u32), &str) -> bool) -> bool {
             let mut i = 0;
             let mut it = n.iter();
@@ -1015,7 +1039,9 @@ macro_rules! ext_mod {
                         let mut res: Vec<String> = vec![];
                         let mut bad: Option<String> = None;
                         let node = st.node(u).clone();
-                        let r = iter_loop(&node, t[1], &mut |i, tri, which| {
+                        // `iter ... fold`: the loop is driven by `Iterator::for_each` instead of a `for` statement
+                        let looper: fn(&N, &str, &mut dyn FnMut(usize, (usize, usize, u32), &str) -> bool) -> bool = if t.get(4) == Some(&"fold") { iter_fold } else { iter_loop };
+                        let r = looper(&node, t[1], &mut |i, tri, which| {
                             let live = st.lists();
                             let n = live.iter().find(|n| n.key == u).unwrap();
                             let ok = match which {
